@@ -13,7 +13,8 @@ CORR_CHECK = "check_case"
 CORR_SHOW = "show_case"
 GEN_FILES = ["gen/C20Table.v"]
 SHARD = 300
-RULE = ("explicit-keyword contexts omit every subset of quote_char/secondary_quote_char/dialect and may sit in a bare "
+RULE = ("terms may first go through copying builder methods (replace_table / as_ on the term, replace_table on the "
+        "enclosing statement or comparison); Python lists/tuples wrapped by wrap_constant; explicit-keyword contexts omit every subset of quote_char/secondary_quote_char/dialect and may sit in a bare "
         "comparison; a third of the interval/json/seq cases render ONE term object 2-4 times in a row under different contexts; leaf "
         "elements of Tuple/Array count their renderings and are also rendered with a parameter collector; "
         "interval/json/seq terms are rendered under a context: own keyword arguments, or one of the ten query classes x "
@@ -133,20 +134,36 @@ def render_in_context(term, case):
     rendered with a placeholder term)."""
     pos = case.get("pos") or "direct"
     kw, _ = case_kwargs(case, raw=True)
+    rtq = "rtq" in (case.get("via") or [])
     from pypika.terms import PseudoColumn
     if pos == "cmp":        # the term as the right operand of a comparison that is rendered on its own
         from pypika import Field
-        pre, _, post = (Field("tags") == PseudoColumn(HOLE)).get_sql(**kw).partition(HOLE)
-        text = (Field("tags") == term).get_sql(**kw)
+        if rtq:
+            from pypika import Table
+            t, u = Table("t"), Table("u")
+            pre, _, post = (Field("tags", table=t) == PseudoColumn(HOLE)).replace_table(t, u).get_sql(**kw).partition(HOLE)
+            text = (Field("tags", table=t) == term).replace_table(t, u).get_sql(**kw)
+        else:
+            pre, _, post = (Field("tags") == PseudoColumn(HOLE)).get_sql(**kw).partition(HOLE)
+            text = (Field("tags") == term).get_sql(**kw)
         if not (text.startswith(pre) and text.endswith(post) and len(text) >= len(pre) + len(post)):
             raise FrameError("criterion %r does not have the frame %r ... %r" % (text, pre, post))
         return text[len(pre):len(text) - len(post)]
     if case.get("cls") is None or pos == "direct":
+        if rtq and hasattr(term, "replace_table"):
+            from pypika import Table
+            term = term.replace_table(Table("t"), Table("u"))
         return term.get_sql(**kw)
     cls = query_classes()[case["cls"]]
-    frame = _statement(cls, pos, PseudoColumn(HOLE)).get_sql()
+    def stmt(x):
+        q = _statement(cls, pos, x)
+        if rtq:
+            from pypika import Table
+            q = q.replace_table(Table("t"), Table("u"))
+        return q.get_sql()
+    frame = stmt(PseudoColumn(HOLE))
     pre, _, post = frame.partition(HOLE)
-    text = _statement(cls, pos, term).get_sql()
+    text = stmt(term)
     if not (text.startswith(pre) and text.endswith(post) and len(text) >= len(pre) + len(post)):
         raise FrameError("statement %r does not have the frame %r ... %r" % (text, pre, post))
     return text[len(pre):len(text) - len(post)]
@@ -376,6 +393,9 @@ def sbuild(d):
     from pypika import Field, Table, functions as fn
     from pypika.terms import Array, Tuple, Bracket, ValueWrapper, NullValue, Interval, JSON
     k = d[0]
+    if k in ("pylist", "pytuple"):
+        from pypika.terms import Term
+        return Term.wrap_constant(pyval(d))
     if k == "int":
         return ValueWrapper(int(d[1]))
     if k == "str":
@@ -409,15 +429,29 @@ def skw(dname):
 
 def scoq(d, kw):
     k = d[0]
-    if k in ("tuple", "array"):
-        return "(SSeq %s %s)" % ("KTuple" if k == "tuple" else "KArray", L([scoq(x, kw) for x in d[1]]))
+    if k in ("tuple", "array", "pylist", "pytuple"):
+        return "(SSeq %s %s)" % ("KTuple" if skind(d) == "tuple" else "KArray", L([scoq(x, kw) for x in d[1]]))
     if k == "bracket":
         return "(SSeq KTuple %s)" % L([scoq(d[1], kw)])
     return "(SAtom %s)" % S(sbuild(d).get_sql(**kw))
 
 
+def skind(d):
+    """"array" / "tuple" for a sequence description (pylist / pytuple: a Python list / tuple wrapped by
+    Term.wrap_constant), None for a leaf"""
+    if d[0] in ("array", "pylist"):
+        return "array"
+    if d[0] in ("tuple", "pytuple", "bracket"):
+        return "tuple"
+    return None
+
+
+def pyval(d):
+    return [pyval(x) for x in d[1]] if d[0] == "pylist" else tuple(pyval(x) for x in d[1]) if d[0] == "pytuple" else d[1]
+
+
 def s_children(d):
-    if d[0] in ("tuple", "array"):
+    if d[0] in ("tuple", "array", "pylist", "pytuple"):
         return d[1]
     if d[0] == "bracket":
         return [d[1]]
@@ -533,6 +567,9 @@ def gen_intervals(rng, n):
         ag = _again(rng, "interval", 0.4)
         if ag:
             c["again"] = ag
+        v = _via(rng, 0.2)
+        if v:
+            c["via"] = v
     return out
 
 
@@ -622,8 +659,32 @@ def gen_jsons(rng, n):
         ag = _again(rng, "json", 0.25)
         if ag:
             c["again"] = ag
+        v = _via(rng, 0.2)
+        if v:
+            c["via"] = v
         out.append(c)
     return out
+
+
+def gen_pydesc(rng, depth):
+    """a Python list / tuple of constants, as pypika wraps it itself (Term.wrap_constant: field == [1, 2])"""
+    items = []
+    for _ in range(rng.choice([0, 1, 2, 3])):
+        r = rng.random()
+        if depth > 0 and r < 0.25:
+            items.append(gen_pydesc(rng, depth - 1))
+        elif r < 0.6:
+            items.append(["int", rng.choice([0, 1, -5, 42])])
+        else:
+            items.append(["str", rng.choice(["a", "a,b", "x'y", "("])])
+    return [rng.choice(["pylist", "pylist", "pytuple"]), items]
+
+
+def _via(rng, p):
+    """builder methods that copy the term (or the statement / criterion around it) before it is rendered"""
+    if rng.random() >= p:
+        return None
+    return rng.choice([["rt"], ["as"], ["rtq"], ["rt", "as"], ["as", "rtq"], ["rt", "rtq"], ["rt", "as", "rtq"], ["rt", "rt"]])
 
 
 def gen_sdesc(rng, depth):
@@ -648,6 +709,8 @@ def gen_sdesc(rng, depth):
             return ["interval", rng.choice([1, 10, -3])]
         return ["json"]
     n = rng.choice([0, 0, 1, 2, 3, 4])
+    if rng.random() < 0.15:
+        return gen_pydesc(rng, depth)
     if r < 0.75:
         return ["array", [gen_sdesc(rng, depth - 1) for _ in range(n)]]
     if r < 0.95:
@@ -660,9 +723,11 @@ def gen_seqs(rng, n):
     dch = ["POSTGRESQL", "REDSHIFT", None, "MYSQL", "ORACLE", "VERTICA", "MSSQL", "CLICKHOUSE", "SQLLITE", "SNOWFLAKE"]
     w = [4, 3, 3, 2, 1, 1, 1, 1, 1, 1]
     for _ in range(n):
-        kind = rng.choices(["array", "tuple", "bracket"], [6, 3, 1])[0]
+        kind = rng.choices(["array", "tuple", "bracket", "py"], [6, 3, 1, 1])[0]
         depth = rng.choice([0, 1, 1, 2, 3])
-        if kind == "bracket":
+        if kind == "py":
+            t = gen_pydesc(rng, min(depth, 2))
+        elif kind == "bracket":
             t = ["bracket", gen_sdesc(rng, depth)]
         else:
             t = [kind, [gen_sdesc(rng, depth) for _ in range(rng.choice([0, 1, 2, 3, 3, 5]))]]
@@ -675,6 +740,9 @@ def gen_seqs(rng, n):
         ag = _again(rng, "seq", 0.35)
         if ag:
             c["again"] = ag
+        v = _via(rng, 0.4)
+        if v:
+            c["via"] = v
         out.append(c)
     return out
 
@@ -739,6 +807,18 @@ def corpus():
         out.append(dict(iv([0, 0, 0, 0, 0, 3, 40], dr="POSTGRESQL"), omit=omit))
     for kw in JSON_KW:
         out.append({"kind": "json", "v": ["d", [[["s", "k"], ["l", [["s", "it's"], ["n"]]]]]], "kw": kw, "pos": "cmp"})
+    # the bracket form survives every builder method that copies the term or what encloses it
+    terms = [["array", [["tfield", "a"], ["int", 7]]], ["tuple", [["tfield", "a"], ["int", 1], ["int", 2]]],
+             ["bracket", ["arith", "a"]], ["pylist", [["int", 1], ["str", "x"], ["pylist", [["int", 2]]]]],
+             ["pytuple", [["int", 1], ["pylist", []]]], ["array", [["array", []], ["tuple", [["str", "x"], ["str", "y"]]]]]]
+    ctxs = [{"d": "POSTGRESQL"}, {"d": None, "pos": "cmp"}, {"d": "REDSHIFT", "pos": "cmp"}, {"d": None, "cls": 4, "pos": "select"},
+            {"d": None, "cls": 5, "pos": "where"}, {"d": None, "cls": 0, "pos": "insert"}, {"d": None, "cls": 1, "pos": "fnarg"}]
+    for t in terms:
+        for via in (["rt"], ["as"], ["rtq"], ["rt", "as", "rtq"]):
+            for ctx in ctxs:
+                out.append(dict({"kind": "seq", "t": t, "via": via}, **ctx))
+    out.append(dict(iv([0, 0, 1, 2, 0, 0, 0], dr="MYSQL"), via=["rt", "rtq"], pos="cmp"))
+    out.append({"kind": "json", "v": ["d", [[["s", "k"], ["s", "v"]]]], "cls": 4, "pos": "where", "via": ["rt", "as", "rtq"]})
     # one object, several renderings (a module-level Interval constant used by statements of several dialects)
     out.append(dict(iv([0, 0, 1, 2, 0, 0, 0], dr="MYSQL"), again=[{"dr": None}, {"dr": "POSTGRESQL"}, {"dr": "ORACLE"}]))
     out.append(dict(iv([0] * 7, w=3, dr="POSTGRESQL"), again=[{"dr": "ORACLE"}, {"dr": None}]))
@@ -771,6 +851,8 @@ def sbuild_counted(d, counters):
     """Like sbuild, but every leaf element counts the calls of its get_sql (one slot per leaf, in order)."""
     from pypika.terms import Array, Tuple, Bracket
     ch = s_children(d)
+    if d[0] in ("pylist", "pytuple"):
+        return sbuild(d)            # constants wrapped by pypika itself: no counting leaves
     if ch is None:
         t = sbuild(d)
         slot = [0]
@@ -801,6 +883,25 @@ def _placeholders(desc, kw):
     return [sql.count("?"), len(p.get_parameters())]
 
 
+VIA_OPS = ["rt", "as", "rtq"]
+
+
+def apply_via(term, via):
+    """the term reached through builder methods that copy it: "rt" = term.replace_table(t, t'), "as" =
+    term.as_("al").as_(None); ("rtq" = replace_table on the enclosing statement / criterion: render_in_context)"""
+    from pypika import Table
+    for op in via:
+        if op == "rt" and hasattr(term, "replace_table"):
+            # t -> an equal Table("t"): every copying step of replace_table runs, and the term can still be put
+            # into a statement over t without a second table (which would switch namespaces on everywhere)
+            term = term.replace_table(Table("t"), Table("t"))
+        elif op == "as" and hasattr(term, "as_"):
+            term = term.as_("al").as_(None)
+        elif op not in VIA_OPS:
+            raise ValueError("unknown via operation %r" % (op,))
+    return term
+
+
 def run_impl(case):
     k = case["kind"]
     try:
@@ -822,6 +923,7 @@ def run_impl(case):
             term = sbuild_counted(case["t"], counters)
         else:
             raise ValueError(k)
+        term = apply_via(term, case.get("via") or [])
         outs, calls, pq = [], [], []
         for sub in subcases(case):          # the same object, one rendering after the other
             for slot in counters:
@@ -951,6 +1053,10 @@ def oracle_interval(case, outcome):
 
 
 def _ctx_text(case):
+    return _ctx_text0(case) + (" after %s" % "+".join(case["via"]) if case.get("via") else "")
+
+
+def _ctx_text0(case):
     if case.get("cls") is not None:
         return "%s / %s" % (CLASS_NAMES[case["cls"]], case.get("pos") or "direct")
     kw = case_kwargs(case)[0]
@@ -989,7 +1095,7 @@ def oracle_seq_desc(d, kw, dname, viols, out=None):
     ch = s_children(d)
     if ch is None:
         return
-    kind = "array" if d[0] == "array" else "tuple"
+    kind = skind(d)
     if out is None:
         out = sbuild(d).get_sql(**kw)
     exp_elems = [sbuild(c).get_sql(**kw) for c in ch]
@@ -1055,7 +1161,7 @@ def _oracle_one(case, outcome):
         kw, dname = case_kwargs(case)
         dname = "%s [%s]" % (dname, _ctx_text(case)) if case.get("cls") is not None else dname
         oracle_seq_desc(case["t"], kw, dname, viols, out=outcome["out"])
-        kind = "array" if case["t"][0] == "array" else "tuple"
+        kind = skind(case["t"])
         calls = outcome.get("calls") or []
         if any(c != 1 for c in calls):      # calls is None under the history perturbation
             viols.append({"signature": ["C20", kind, "element-not-rendered-once"],
@@ -1109,6 +1215,8 @@ def histogram(cases):
         inc("kind=" + k)
         if c.get("again"):
             inc("%s.rendered_%d_times" % (k, 1 + len(c["again"])))
+        if c.get("via"):
+            inc("%s.via=%s" % (k, "+".join(c["via"])))
         if k in ("interval", "json", "seq"):
             inc("%s.ctx=%s/%s" % (k, "own-kwargs" if c.get("cls") is None else CLASS_NAMES[c["cls"]], c.get("pos") or "direct"))
             if c.get("cls") is None and "omit" in c:
